@@ -79,6 +79,7 @@ type VC struct {
 	errs      []string
 	errGlobals map[string]bool
 	qfacts    []*QFact
+	witnesses []*Witness
 	deltas    []Term
 }
 
@@ -267,7 +268,7 @@ func (vc *VC) typeFacts(v Term, t types.Type, wm Term) Term {
 	case *types.Interface, *types.Signature:
 		return le(tZero, v)
 	case *types.Slice:
-		return and(le(tZero, sOff(v)), le(tZero, sLen(v)), le(sLen(v), sCap(v)), le(tZero, sBase(v)), lt(sBase(v), wm),
+		return and(le(tZero, sOff(v)), le(tZero, sLen(v)), le(sLen(v), sCap(v)), le(add(sOff(v), sCap(v)), Term{"9223372036854775807", SInt}), le(tZero, sBase(v)), lt(sBase(v), wm),
 			implies(eq(sBase(v), tZero), eq(sCap(v), tZero)))
 	case *types.Struct:
 		var fs []Term
